@@ -52,8 +52,8 @@ CHECKS = {
    text="Two real Mux endpoints with random, unequal capability and stream limits and tiny buffer limits exchange self-describing data on many concurrent transient streams in both directions. After the run the uses of both sides must pair up one-to-one per capability, each reader having received exactly its counterpart's bytes in order (complete when read to end-of-stream), end-of-stream only after the counterpart closed; during the run streams held per capability never exceed min(local, peer limit) and payload pulled from the transport but not consumed never exceeds read_buffer_size.",
    note="Buffer bound checked with cooperative readers only (see evidence assumptions); non-cooperative frame-level peers belong to the C10 byte-level check."),
  "C15": dict(engine="primsim", design="DESIGN.md section 5 (C15)",
-   technique="deterministic simulation of the real Limiter with seeded schedules, director-controlled clock, cancellations; token-bucket / FIFO / leak oracles over the grant history",
-   text="Limiter half of C15: 1-6 client tasks acquire / hold / drop / cancel on the real Limiter while the director advances the manual clock; over the grant history: no window of length T sees more than burst + T/refresh + 1 permits, waiters are served in arrival order, cancelled waits consume nothing (no leak: acquire(burst) is immediate after burst*refresh of idleness), nothing above burst is ever granted. The per-RPC-stream half is not claimed yet.",
+   technique="deterministic simulation of the real Limiter (seeded schedules, director-controlled clock, cancellations; token-bucket / FIFO / leak oracles) and of a real rpc::Service server against honest and greedy clients (wire-level OPEN timestamps, handler concurrency)",
+   text="Per-RPC-stream half: a real rpc::Service server over a simulated pipe faces the real client or a greedy raw-multiplexer client; the OPEN frames the server sends per RPC (parsed from its wire, stamped with simulated time) obey burst + T/refresh + 1 in every window, handler starts obey it up to the INFLIGHT streams opened earlier, and never more than INFLIGHT handlers run concurrently. Limiter half: 1-6 client tasks acquire / hold / drop / cancel on the real Limiter while the director advances the manual clock; over the grant history: no window of length T sees more than burst + T/refresh + 1 permits, waiters are served in arrival order, cancelled waits consume nothing (no leak: acquire(burst) is immediate after burst*refresh of idleness), nothing above burst is ever granted.",
    note="Time is the ManualClock; interleavings at await-point granularity."),
  "C17": dict(engine="primsim", design="DESIGN.md section 5 (C17)",
    technique="deterministic simulation: generated task-tree programs on the real scope::run! under seeded schedules; event-log oracle",
